@@ -16,6 +16,7 @@ import (
 	"time"
 
 	"github.com/Comcast/rulio/core"
+	"github.com/Comcast/rulio/sys"
 	"pgregory.net/rapid"
 
 	"verif/harness/gen"
@@ -29,12 +30,18 @@ type c20CapCase struct {
 	Kind string `json:"kind"`
 	Max  int    `json:"max"`
 	Ops  []op   `json:"ops"`
+	// Sys: 0 = a location of its own whose control carries the maximum;
+	// 1 = served by a sys.System whose default location control carries it;
+	// 2 = served by a sys.System that puts the location into a group whose
+	// control carries it (the default control allows far more).
+	Sys int `json:"sys,omitempty"`
 }
 
 func genC20Cap(t *rapid.T) c20CapCase {
 	var c c20CapCase
 	c.Kind = rapid.SampledFrom([]string{"indexed", "linear"}).Draw(t, "kind")
 	c.Max = rapid.IntRange(1, 6).Draw(t, "max")
+	c.Sys = rapid.SampledFrom([]int{0, 0, 1, 2}).Draw(t, "sys")
 	n := rapid.IntRange(3, 20).Draw(t, "nops")
 	ids := []string{"", "", "a", "b", "c", "d", "e", "f", "g"}
 	for i := 0; i < n; i++ {
@@ -83,7 +90,38 @@ func runC20Cap(c c20CapCase) *vlib.Outcome {
 	}
 	w := newWorld(c.Kind, nil, o)
 	w.ctrl.MaxFacts = c.Max
-	w.open("L")
+	if c.Sys > 0 {
+		conf := sys.ExampleConfig()
+		conf.UnindexedState = c.Kind == "linear"
+		cont := sys.ExampleSystemControl()
+		cont.Timing = false
+		cont.LocationTTL = sys.Forever
+		cont.DefaultLocControl = w.ctrl
+		if c.Sys == 2 {
+			roomy := quietControl()
+			roomy.MaxFacts = 1000
+			cont.DefaultLocControl = roomy
+			cont.LocToGroup = func(loc string) string { return "small" }
+			cont.GroupControls = map[string]*core.Control{"small": w.ctrl}
+		}
+		s, err := sys.NewSystem(newCtx(), *conf, *cont, nullCron{})
+		if err != nil {
+			o.Fail("NEWSYSTEM", "%v", err)
+			return o
+		}
+		w.engine = s
+		o.Label(fmt.Sprintf("sys-%d", c.Sys))
+	}
+	if _, err := w.open("L"); err != nil {
+		o.Fail("OPEN", "%v", err)
+		return o
+	}
+	if w.engine != nil {
+		// (the System creates its storage with the first location)
+		if st, err := w.engine.PeekStorage(newCtx()); err == nil && st != nil {
+			w.store = st
+		}
+	}
 	hitCap, freed := false, false
 	for i, x := range c.Ops {
 		when := fmt.Sprintf("[%s max=%d] op %d %s", c.Kind, c.Max, i, vlib.JSON(x))
